@@ -6,4 +6,5 @@ git -C /repo worktree add -q $wt HEAD || exit 2
 if ! git -C $wt apply $patch; then echo "PATCH DOES NOT APPLY"; git -C /repo worktree remove --force $wt; exit 3; fi
 cd /verif && VERIF_REPO=$wt ./check $p --tier $tier 2>&1 | tail -2
 git -C /repo worktree remove --force $wt
-rm -f /verif/harness/go-alt*; rm -rf /verif/work/$p-alt*; rm -f /verif/harness/bin/*-alt*
+alt=$(python3 -c "import hashlib,sys;print('-alt'+hashlib.sha1(sys.argv[1].encode()).hexdigest()[:6])" $wt)
+rm -f /verif/harness/go$alt.mod /verif/harness/go$alt.sum /verif/harness/bin/*$alt; rm -rf /verif/work/$p$alt
